@@ -46,6 +46,12 @@ func gowpN6() int { s := 0; { n := 0
 		{ a := n; { b := a + 1; { c := b + 1; { d := c + 1; { e := d + 1; s += e; if n < 4 { goto again } } } } } } }; return s }
 func gowpN7() int { s := 0; for i := 0; i < 4; i++ { a := i; for j := 0; j < 4; j++ { b := j; if b == 2 { continue }; if a == 3 { break }; s += a*10 + b } }; return s }
 
+func gowpN8() int { var r rune; s := 0; for _, r = range "abc" { s += int(r) }; return s*1000 + int(r) }
+func gowpN9() int { var r rune; s := 0; { q := 1; { w := 2; for _, r = range "héllo" { s += int(r) + q + w } } }; return s*1000 + int(r) }
+func gowpN10() int { var a, b, c int = 1, 2, 3; var x interface{}; for _, x = range "abc" { }; return a*100 + b*10 + c + int(x.(rune))*1000 }
+func gowpN11() int { var arr [2]int32; n := 0; for _, arr[1] = range "abz" { n++ }; return int(arr[1])*10 + n }
+func gowpN12() int { var r rune; func() { for _, r = range "abq" { } }(); return int(r) }
+
 func TestGowpReplayC05(t *testing.T) {
 	progs := []struct {
 		name, src string
@@ -57,6 +63,11 @@ func TestGowpReplayC05(t *testing.T) {
 		{"f4", "func f4() int { s := 0; outer: for i := 0; i < 5; i++ { a := i; { b := a + 1; { c := b + 1; { d := c + 1; { e := d + 1; if e > 6 { break outer }; s += e } } } } }; return s }", gowpN4()},
 		{"f5", "func f5() int { s, n := 0, 0; again: n++; { a := n; { b := a + 1; { c := b + 1; { d := c + 1; s += d; if n < 3 { goto again } } } } }; return s }", gowpN5()},
 		{"f6", "func f6() int { s := 0; { n := 0; again: n++; { a := n; { b := a + 1; { c := b + 1; { d := c + 1; { e := d + 1; s += e; if n < 4 { goto again } } } } } } }; return s }", gowpN6()},
+		{"f8", "func f8() int { var r rune; s := 0; for _, r = range \"abc\" { s += int(r) }; return s*1000 + int(r) }", gowpN8()},
+		{"f9", "func f9() int { var r rune; s := 0; { q := 1; { w := 2; for _, r = range \"héllo\" { s += int(r) + q + w } } }; return s*1000 + int(r) }", gowpN9()},
+		{"f10", "func f10() int { var a, b, c int = 1, 2, 3; var x interface{}; for _, x = range \"abc\" { }; return a*100 + b*10 + c + int(x.(rune))*1000 }", gowpN10()},
+		{"f11", "func f11() int { var arr [2]int32; n := 0; for _, arr[1] = range \"abz\" { n++ }; return int(arr[1])*10 + n }", gowpN11()},
+		{"f12", "func f12() int { var r rune; func() { for _, r = range \"abq\" { } }(); return int(r) }", gowpN12()},
 		{"f7", "func f7() int { s := 0; for i := 0; i < 4; i++ { a := i; for j := 0; j < 4; j++ { b := j; if b == 2 { continue }; if a == 3 { break }; s += a*10 + b } }; return s }", gowpN7()},
 	}
 	for _, p := range progs {
@@ -76,4 +87,5 @@ func init() {
 	r := &replayer{pkg: "fast", test: "TestGowpReplayC05", kind: "search", source: func(map[string]string, string) string { return replayC05 }}
 	replayers["fast.(*Comp).jumpOut"] = r
 	replayers["fast.(*Comp).Goto"] = r
+	replayers["fast.(*Comp).rangeString"] = r
 }
